@@ -14,7 +14,7 @@ def check(ctx):
     if ctx.tier == 'quick':
         ctx.run_engine(exe, ['--outdir', '/verif/out', '--closure', '1', '10', '--deadline', '70'], label='zone', timeout=600)
     else:
-        ctx.run_engine(exe, ['--outdir', '/verif/out', '--closure', '1', '13', '--bounded', '14', '16', '9', '--deadline', '1100'], label='zone', timeout=2400)
+        ctx.run_engine(exe, ['--outdir', '/verif/out', '--closure', '1', '13', '--bounded', '14', '16', '10', '--deadline', '1000'], label='zone', timeout=2400)
     return ctx.finish(RULE, ["sequential use: callers are serialised by the allocator's own lock (lock behaviour is C29's subject)",
                              "only legal calls: free() of live allocations, malloc() of at least one byte"])
 def replay(ctx, path, obj):
